@@ -17,6 +17,7 @@ ASSUMPTIONS = ['written values are bytes (Mapper.Write takes a uint8)',
                'image lengths fit a Go int (the model treats 0x02<<code as a 64-bit shift)']
 ALLOWED_AXIOMS = []
 KEEP_PREFIX = 1
+MAX_REPORT = 6
 
 
 def generate(rng, tier):
